@@ -248,8 +248,19 @@ def run(res, tier, seed):
         what = None
         k = len(before)
         if not any(d.startswith("PERR") for d in it1.get((fidx, k), [])):
-            what = (f"the {'closed' if closed else 'unterminated'} macro definition starting at line {k + 1} "
-                    f"({len(region)} lines) is skipped without any diagnostic on it")
+            # the skip can be cut short by a token the lexer rejects inside the body (a `%param`, a
+            # stray character): then that token is reported where it stands and the rest of the body is
+            # read as ordinary lines - the construct is named by an error inside it, and every line
+            # after that point must be accounted for on its own
+            inner = [q for q in range(1, len(region)) if any(d.startswith("PERR") for d in it1.get((fidx, k + q), []))]
+            if not inner:
+                what = (f"the {'closed' if closed else 'unterminated'} macro definition starting at line {k + 1} "
+                        f"({len(region)} lines) is skipped without any diagnostic on it")
+            else:
+                for q in range(inner[0] + 1, len(region)):
+                    if meaningful(region[q]) and (fidx, k + q) not in it1:
+                        what = (f"line {k + q + 1} {region[q]!r} (inside a macro definition whose skipping was cut "
+                                f"short at line {k + inner[0] + 1}) produced neither a node nor a parse error")
         for ln in range(len(before)):
             if it1.get((fidx, ln), []) != it0.get((fidx, ln), []):
                 what = what or f"a macro definition changes how line {ln + 1} before it is parsed"
